@@ -1,6 +1,8 @@
 //! Shared runner for the properties decided on substrate S4 (real router, stepped)
 use crate::common::{judge, sharded, Ctx, Judged, Rng, Stats};
 use crate::sub::s4drive::{History, Profile, Triggers};
+#[allow(unused_imports)]
+use crate::common::Rng as _Rng;
 use serde_json::{json, Value};
 
 pub type Directed = fn(&mut History);
@@ -13,6 +15,9 @@ pub struct Plan {
     pub thorough_histories: u64,
     /// rounds of the threaded substrate S5 (quick, thorough) on top of the stepped histories
     pub s5: Option<(u64, u64, crate::sub::s5::Plan)>,
+    /// fault enumeration (C08): number of base histories (quick, thorough) for which the end of actor 0's
+    /// persistent session is injected before every operation, in each of the four flavours
+    pub enumerate_session_end: Option<(u64, u64, Profile)>,
 }
 
 pub fn s5_default(hostile: bool, group_members: usize) -> crate::sub::s5::Plan {
@@ -54,6 +59,44 @@ fn judge_history(ctx: &Ctx, stats: &mut Stats, h: &History) {
 
 pub fn run(ctx: &Ctx, plan: &Plan) -> Stats {
     let mut stats = run_stepped(ctx, plan);
+    if let Some((q, t, profile)) = &plan.enumerate_session_end {
+        let bases = ctx.size(*q, *t);
+        let shards = if ctx.quick() { ctx.threads.min(8) } else { ctx.threads };
+        let more = sharded(ctx, shards, |shard, seed| {
+            let mut st = Stats::default();
+            let mut rng = Rng::new(seed ^ 0xe08);
+            for b in 0..bases {
+                let base_seed = rng.next();
+                if (b as usize) % shards != shard {
+                    continue;
+                }
+                // the base history tells how many operations there are
+                let mut base = History::new(base_seed, profile, Some(Triggers::default()));
+                base.triggered = false;
+                base.run_random();
+                judge_history(ctx, &mut st, &base);
+                let n = base.ops_total;
+                for at in 0..n {
+                    for flavour in 0..4u8 {
+                        let mut h = History::new(base_seed, profile, Some(Triggers::default()));
+                        h.triggered = false;
+                        h.inject = Some((at, flavour));
+                        h.run_random();
+                        h.shape.push(flavour);
+                        judge_history(ctx, &mut st, &h);
+                        st.add_extra("crash_points", 1);
+                    }
+                }
+                st.add_extra("base_histories_enumerated", 1);
+                if st.violations.len() >= 3 {
+                    break;
+                }
+            }
+            st
+        });
+        stats.merge(more);
+        stats.exhaustive_scopes.push("C08: for every base history, session end injected before every operation x 4 flavours (DISCONNECT, link failure, router-initiated close, take-over)".into());
+    }
     if let Some((q, t, s5plan)) = &plan.s5 {
         // OS-thread interleavings: real Router::spawn() + client threads, offline checker
         let rounds = ctx.size(*q, *t);
@@ -110,11 +153,21 @@ pub fn replay(ctx: &Ctx, plan: &Plan, doc: &Value) -> Stats {
     let mut stats = Stats::default();
     let seed = doc["case_seed"].as_u64().unwrap_or(0);
     let name = doc["profile"].as_str().unwrap_or("");
-    let Some(profile) = plan.profiles.iter().find(|p| p.name == name) else {
+    let enum_profile = plan.enumerate_session_end.as_ref().map(|x| &x.2);
+    let Some(profile) = plan.profiles.iter().chain(enum_profile).find(|p| p.name == name) else {
         stats.inconclusive.push(format!("replay: unknown profile {name}"));
         return stats;
     };
-    let mut h = History::new(seed, profile, None);
+    let forced = doc["forced_trigger_free"].as_bool().unwrap_or(false);
+    let mut h = History::new(seed, profile, if forced { Some(Triggers::default()) } else { None });
+    if forced {
+        h.triggered = false;
+    }
+    if let Some(inj) = doc["inject"].as_array() {
+        if inj.len() == 2 {
+            h.inject = Some((inj[0].as_u64().unwrap_or(0), inj[1].as_u64().unwrap_or(0) as u8));
+        }
+    }
     h.verbose = true;
     h.run_random();
     judge_history(ctx, &mut stats, &h);
